@@ -39,6 +39,8 @@ func runC02(c *Ctx) {
 	if s != nil {
 		c02Inject(c, s)
 	}
+	// the once-per-Spec set is keyed by the Spec objects of one index state
+	c.noRebuildAfterLookup("C02.2", c.U.Func("cdi", "(*Cache).InjectDevices"))
 	c02Append(c)
 }
 
